@@ -299,3 +299,21 @@ func Segment(b []byte, cuts []int) enc.Wire {
 	w = append(w, append([]byte{}, b[prev:]...))
 	return w
 }
+
+// DecodeSig decodes and returns the signature view plus the signed portion
+// exactly as the repository decoder reports them (for validators).
+func DecodeSig(kind string, r enc.ParseReader) (ndn.Signature, enc.Wire, error) {
+	sp := spec.Spec{}
+	if kind == "data" {
+		d, cov, err := sp.ReadData(r)
+		if err != nil {
+			return nil, nil, err
+		}
+		return d.Signature(), cov, nil
+	}
+	i, cov, err := sp.ReadInterest(r)
+	if err != nil {
+		return nil, nil, err
+	}
+	return i.Signature(), cov, nil
+}
